@@ -8,8 +8,8 @@ ROOT = os.path.dirname(os.path.dirname(os.path.abspath(__file__)))
 CHECKS = {
     "C11": ("SCHED", "model_checking",
             "stateless exploration of all interleavings of the real code at hook granularity under a controlled scheduler with preemption bounding; brute-force linearizability check per execution",
-            "Every schedule with at most 2 (quick) / 3 (thorough) preemptions of 2-3 tasks x 1-2 operations from {get, contains, put, put_with_ttl(0), remove, clear} on the same and on different keys on the real MemoryCache (non-evicting; evicting under LRU and FIFO with an entry limit of 2 and with a byte limit, incl. replacing puts of another size), DiskCache (both layouts, incl. keys that used to share a temp file), MultiLayerCacheImpl [Memory, Disk], and of write/read/remove/query on one DynamicContainer; tasks run on real threads, the repository's vp_sched! points hand control to the explorer. Per execution: no operation fails unless a concurrent operation of another task touches the same key; no torn or foreign value; the call/return history is linearizable w.r.t. the map (set) specification by brute force over all orders consistent with real time; after join the reported entry count and usage equal the retrievable contents. The first schedule of every body is replayed twice (determinism), every violating schedule once more.",
-            "Trusted: sequential consistency at hook granularity (Relaxed counters not explored under weak memory); the std RwLocks of cascette-cache and the parking_lot RwLocks of DynamicContainer are wrapped (acquire/release are scheduling points, blocked acquires are modelled, all-blocked = deadlock); hooks never sit inside guard scopes of unwrapped locks (DashMap shards); layered gets may miss (lenient). Hooks: cargo feature verif-hooks (commits 02e2645, 40a9c77, 0da5b95, b72114b, a395111).",
+            "Every schedule with at most 2 (quick) / 3 (thorough; 2 for the three-task DynamicContainer bodies) preemptions of 2-3 tasks x 1-2 operations from {get, contains, put, put_with_ttl(0), remove, clear} on the same and on different keys on the real MemoryCache (non-evicting; evicting under LRU and FIFO with an entry limit of 2 and with a byte limit, incl. replacing puts of another size), DiskCache (both layouts, incl. keys that used to share a temp file), MultiLayerCacheImpl [Memory, Disk], and of write/read/remove/query on one DynamicContainer; tasks run on real threads, the repository's vp_sched! points hand control to the explorer. Per execution: no operation fails unless a concurrent operation of another task touches the same key; no torn or foreign value; the call/return history is linearizable w.r.t. the map (set) specification by brute force over all orders consistent with real time; after join the reported entry count and usage equal the retrievable contents. The first schedule of every body is replayed twice (determinism), every violating schedule once more.",
+            "Trusted: sequential consistency at hook granularity (Relaxed counters not explored under weak memory); the std RwLocks of cascette-cache and the parking_lot RwLocks of DynamicContainer and ArchiveManager are wrapped (acquire/release are scheduling points, blocked acquires are modelled, all-blocked = deadlock); MemoryCache's DashMap is wrapped so that get/insert/remove/remove_if are scheduling points taken before the shard lock; no scheduling point sits inside a DashMap shard guard; layered gets may miss (lenient). Hooks: cargo feature verif-hooks (commits 02e2645, 40a9c77, 0da5b95, b72114b, a395111, a160769).",
             "DESIGN.md §2.2, §4 C11"),
     "C14": ("SEQ (outcome trees)", "model_checking",
             "exhaustive enumeration of the complete outcome tree of every policy on a grid, each path one run of the real RetryPolicy::execute under tokio's paused clock",
@@ -145,7 +145,7 @@ def main():
             "enable": "cargo feature `verif-hooks` on cascette-cache and cascette-client-storage, switched on by the path dependencies in harness/Cargo.toml",
             "baseline_off_cmd": "/verif/tools/repo_tests.sh",
             "source_commits": hooks_commits,
-            "add_only": False,  # 0da5b95 and b72114b rewrite one import line each in disk_cache.rs, multi_layer.rs and container/dynamic.rs (cfg-switched RwLock import); a395111 hoists one atomic load of fast_snapshot() into a local so that a point fits between the two loads; everything else only adds
+            "add_only": False,  # 0da5b95 and b72114b rewrite one import line each in disk_cache.rs, multi_layer.rs and container/dynamic.rs (cfg-switched RwLock import); a395111 hoists one atomic load of fast_snapshot() into a local so that a point fits between the two loads; a160769 rewrites the DashMap import of memory_cache.rs and the RwLock import of storage/archive_file.rs; everything else only adds
         },
         "engines": [
             {"name": "SEQ", "path": "harness/src/seq.rs", "serves_properties": [p for p in props if p in CHECKS and CHECKS[p][0].startswith("SEQ")], "kind_free_text": "explicit-state exploration of operation histories on the real object in lock-step with a reference model; state = history, rebuilt by replay; BFS by depth; 1-minimal counterexamples"},
